@@ -48,6 +48,21 @@ func writeOrderFacts(sb *strings.Builder) {
 		}
 	}
 	fmt.Fprintf(sb, "def fileCacheRows : Nat := %d\ndef fileCacheAllLocked : Bool := %v\n", n, fcOK && n > 0)
+	// ... and is ONE critical section: c.lock.Lock() has exactly one call site per exported method (an Unlock/Lock pair inside
+	// a method would split it into two sections, with the cache state free to change in between)
+	var fcs []string
+	var fcNames []string
+	for name := range funcs {
+		if strings.HasPrefix(name, "FileCache.") && len(name) > 10 && name[10] >= 'A' && name[10] <= 'Z' {
+			fcNames = append(fcNames, name)
+		}
+	}
+	sort.Strings(fcNames)
+	for _, name := range fcNames {
+		a := funcs[name].acquires["FileCache.lock"]
+		fcs = append(fcs, fmt.Sprintf("(%q, %d)", name, a[0]+a[1]))
+	}
+	fmt.Fprintf(sb, "/-- (exported FileCache method, call sites of c.lock.Lock()) -/\ndef fileCacheSections : List (String × Nat) := [%s]\n", strings.Join(fcs, ", "))
 	// Store.Flush: number of return statements and number of notice-closing sections (close(s.flushNotice))
 	fmt.Fprintf(sb, "def flushReturns : Nat := %d\n", funcs["Store.Flush"].returns)
 	writes := 0
